@@ -624,7 +624,15 @@ func c11Run(cfg *c11Cfg, upfront, appended []int) c11Result {
 
 // ---------------------------------------------------------------- Gallina printing
 
-func c11Name(s string) string { return "(h " + coqHex([]byte(s)) + ")" }
+// plain ASCII names cross as (s "name"), anything else as hex: shorter terms parse faster
+func c11Name(str string) string {
+	for _, c := range []byte(str) {
+		if !(c >= 'a' && c <= 'z' || c >= 'A' && c <= 'Z' || c >= '0' && c <= '9' || c == '_' || c == ' ' || c == '-' || c == '~') {
+			return "(h " + coqHex([]byte(str)) + ")"
+		}
+	}
+	return "(s \"" + str + "\")"
+}
 
 func c11RefCoq(r c11Ref) string {
 	switch r.K {
